@@ -46,6 +46,30 @@ TEXT = {
               "split_ascii_whitespace yields no empty or whitespace-containing word and loses nothing else. Tied by the spawn stream; byte-for-byte delivery and the "
               "effect of group/session wrappers are validated with real children (partial: OS behaviour is not proved)."),
         note=COMMON_NOTE + "Modelled/validated only: execve, process-wrap wrappers, /proc."),
+    "C03": dict(
+        design_ref="§7 C03",
+        technique="Lean 4 refinement proof (strong induction on prefix length): the match_path lookup loop equals nearest-component-ancestor-first evaluation, parametric in the glob matcher; differential execution against IgnoreFilter plus a specification oracle",
+        text=("Theorem matchPathC_eq_spec: on the model the correspondence validates, match_path (longest-string-prefix trie lookup, component check, parent hop) equals git-style "
+              "evaluation over the component-wise ancestors, nearest first, then global — for every filter, path and file type; corollaries spec_congr / spec_keys_congr / "
+              "scoping_law: files of non-ancestor directories (test/ vs tests/) never change a verdict, negations included; goOld_ne_spec keeps the kernel-checked witness that "
+              "the pre-repair loop violated it. The proof is parametric in the per-node verdict, so it does not rest on the glob model."),
+        note=COMMON_NOTE + "Modelled: radix_trie::get_ancestor, the ignore crate's gitignore matcher (validated by the glob stream)."),
+    "C11": dict(
+        design_ref="§7 C11",
+        technique="Lean 4 proof of the documented decision rule for an abstract filterer (matcher, ignore-file layer, Path::extension as parameters), instantiated with the concrete models; differential execution against GlobsetFilterer::check_event",
+        text=("Theorems for every environment and configuration: no paths -> pass; a whitelisted path -> pass; ignore-file layer rejects -> reject; otherwise pass iff some path is not "
+              "matched by an ignore pattern and is wanted (filter match incl. the origin//rel re-match, or non-directory with a listed extension; everything when nothing is configured); "
+              "ignore precedence; inserting a non-negated ignore pattern anywhere can only turn pass into reject; the empty configuration passes everything. The function the driver runs "
+              "against the real filterer IS the abstract decision instantiated (checkEventC), so the theorems hold for it by instantiation."),
+        note=COMMON_NOTE + "Modelled: globset matching, std::path::Path::extension."),
+    "C14": dict(
+        design_ref="§7 C14",
+        technique="Lean 4 proof by mutual structural induction that the discovery walker computes the specification (reachable directories judged by their proper ancestors' files), order-independence, soundness, completeness; differential execution against from_origin on real trees plus a specification oracle",
+        text=("Theorems on the walker model (one growing list of loaded directories, filter as a parameter satisfying the scoping law proved in C03): visit_spec / visit_spec' (walker = "
+              "specification), sv_order (result independent of listing order at every depth), sv_sound (nothing from inside an ignored or unrelated subtree), sv_complete (every "
+              "applicable directory is found). Partial: the real stack-and-skip-list walk is tied to this recursion by the discover stream (ordered result lists on real trees) and by "
+              "the specification oracle, not by proof."),
+        note=COMMON_NOTE + "Modelled: the filesystem (read_dir order is recorded and fed to the model), find_file."),
 }
 
 NOT_APPLICABLE = {}
